@@ -117,3 +117,30 @@ K('C16', 'lbp-returns-old-marginals', [(FG, "        self.messages = mu_n, mu_f\
 T('C16', 'gbp-hoisted-shift', [(RG, "            belief = potentials[r] + sum(self.messages[r1,r2] for r1,r2 in self.B[r])\n            belief += np.log(self.total) - belief.logsumexp()",
                                   "            belief = potentials[r] + sum(self.messages[r1,r2] for r1,r2 in self.B[r])\n            logt = np.log(self.total)\n            shift = logt - belief.logsumexp()\n            belief = belief + shift")])
 T('C16', 'cm-one-expression', [(FG, "            belief += np.log(self.total) - belief.logsumexp()\n            marginals[cl] = belief.exp()", "            marginals[cl] = (belief - belief.logsumexp() + np.log(self.total)).exp()")])
+
+# ------------------------------------------------------------------ C18
+K('C18', 'fg-no-damping', [(FG, "        self.iters = iters\n        self.damping = 0.5\n", "        self.iters = iters\n")], 'conformance')
+K('C18', 'li-reads-convergence', [(LI, "            if model.primal_feasibility(mu) < 1.0:", "            if model.primal_feasibility(mu) < model.convergence:")], 'conformance')
+K('C18', 'fg-messages-lazy', [(FG, "        self.messages = self.init_messages()\n", "        if convex:\n            self.messages = self.init_messages()\n")], 'conformance')
+K('C18', 'dispatch-drop-pairwise', [(LI, "        elif self.marginal_oracle == 'pairwise':\n            model = FactorGraph(self.domain, cliques, total, convex=False, iters=self.inner_iters)\n", "")], 'dispatch')
+K('C18', 'hps-total-dropped', [(RG, "                belief = (pot[r] + sum(messages[c,r] for c in self.children[r]) - sum(messages[r,p] for p in self.parents[r])) / c0[r]\n                belief += np.log(self.total) - belief.logsumexp()",
+                                  "                belief = (pot[r] + sum(messages[c,r] for c in self.children[r]) - sum(messages[r,p] for p in self.parents[r])) / c0[r]\n                belief -= belief.logsumexp()")], 'returned-normalised-to-total')
+K('C18', 'md-store-swapped', [(LI, "        self.model.potentials = theta\n        self.model.marginals = mu", "        self.model.potentials = mu\n        self.model.marginals = theta")], 'returns-own-iterate')
+K('C18', 'feasibility-arity', [(FG, "    def primal_feasibility(self, mu):", "    def primal_feasibility(self, mu, tol):")], 'conformance')
+T('C18', 'fg-class-level-damping', [(FG, "class FactorGraph():\n    def __init__", "class FactorGraph():\n    damping = 0.5\n    def __init__"),
+                                    (FG, "        self.iters = iters\n        self.damping = 0.5\n", "        self.iters = iters\n")])
+T('C18', 'fg-damping-via-helper', [(FG, "        self.iters = iters\n        self.damping = 0.5\n", "        self.iters = iters\n        self.set_defaults()\n"),
+                                   (FG, "    def datavector(self, flatten=True):", "    def set_defaults(self):\n        self.damping = 0.5\n\n    def datavector(self, flatten=True):")])
+
+# ------------------------------------------------------------------ C19
+K('C19', 'emd-unconditional-accept', [(PI, "        if loss - new_loss >= 0.5*alpha*dL.dot(P-Q):\n            #print(alpha, loss)\n            logP = logQ",
+                                         "        logP = logQ\n        if loss - new_loss >= 0.5*alpha*dL.dot(P-Q):\n            #print(alpha, loss)")], 'guarded-replacement')
+K('C19', 'emd-total-lost', [(PI, "        logQ += np.log(total) - logsumexp(logQ)", "        logQ += -logsumexp(logQ)")], 'returned-normalised-to-total')
+K('C19', 'emd-loss-not-updated', [(PI, "            loss, dL = new_loss, new_dL\n", "            dL = new_dL\n")], 'guarded-replacement')
+K('C19', 'emd-loss-at-P', [(PI, "        new_loss, new_dL = loss_and_grad(Q)", "        new_loss, new_dL = loss_and_grad(P)")], 'guarded-replacement')
+K('C19', 'estimate-mutates-public', [(PI, "        self.weights = entropic_mirror_descent(loss_and_grad, self.weights, total)\n",
+                                        "        self.weights = entropic_mirror_descent(loss_and_grad, self.weights, total)\n        self.public_data.df['weight'] = self.weights\n")], 'public-data-unmodified')
+K('C19', 'estimate-total-floor', [(PI, "        self.measurements = measurements\n", "        self.measurements = measurements\n        total = max(total, self.public_data.records)\n")], 'total-pass-through')
+K('C19', 'emd-raw-step', [(PI, "        logQ += np.log(total) - logsumexp(logQ)\n        Q = np.exp(logQ)", "        Q = np.exp(logQ)\n        Q *= total / Q.sum()")], 'exp-normalised')
+T('C19', 'emd-compare-flipped-form', [(PI, "        if loss - new_loss >= 0.5*alpha*dL.dot(P-Q):", "        if 0.5*alpha*dL.dot(P-Q) <= loss - new_loss:")])
+T('C19', 'emd-hoisted-shift', [(PI, "        logQ += np.log(total) - logsumexp(logQ)", "        shift = np.log(total) - logsumexp(logQ)\n        logQ = logQ + shift")])
